@@ -179,6 +179,8 @@ def _amount(rng, cls):
         return rng.choice(INEXACT) if rng.random() < 0.6 else rng.randrange(10**5, 10**10)
     if cls == "small":
         return rng.randrange(20000, 200000)
+    if cls == "dust":
+        return rng.randrange(294, 6000)  # smaller than some fees: selection boundaries matter
     if cls == "huge":
         return rng.randrange(10**14, 21 * 10**14)
     return rng.randrange(10**5, 10**11)
@@ -203,7 +205,7 @@ def plan(seed, tier="quick", index=0):
     for i in range(n_id):
         k = 1 if clean else rng.choice([1, 1, 2, 3, 4, 6])
         for j in range(k):
-            cls = "exact" if clean else rng.choice(["exact", "inexact", "inexact", "small", "huge", "random"])
+            cls = "exact" if clean else rng.choice(["exact", "inexact", "inexact", "small", "dust", "huge", "random"])
             funding.append(
                 {
                     "who": i,
